@@ -231,7 +231,9 @@ class RetryExecutor(CanCustomizeBind, Executor):
         """
         self._log = LogWrapper(logger if logger else logging.getLogger("RetryExecutor"))
         self._delegate = delegate
-        self._default_retry_policy = retry_policy or ExceptionRetryPolicy(**kwargs)
+        if retry_policy is None:
+            retry_policy = ExceptionRetryPolicy(**kwargs)
+        self._default_retry_policy = retry_policy
         self._jobs = []
         self._submit_event = get_event()
         self._name = name
